@@ -7,6 +7,7 @@ package c06
 // and compares:  c0 <= complete well-formed lines <= "before" counter.
 
 import (
+	"errors"
 	"fmt"
 	"os"
 	"os/exec"
@@ -24,12 +25,20 @@ import (
 	"pgregory.net/rapid"
 )
 
-const findingSignal = "signal-exit-before-flush"
+// Two ways in which the current CLI loses completed reports on a signal:
+const (
+	// cli.awaitPandoraTermination log.Fatal's (os.Exit) as soon as Engine.Run returned on the
+	// cancel, without Engine.Wait: the aggregator's drain + final flush race with the exit.
+	findingSignal = "signal-exit-before-flush"
+	// signal.Notify is only called after the engine was started: a signal in between kills the
+	// process through the default disposition.
+	findingEarly = "signal-before-handler-installed"
+)
 
 type SigCase struct {
 	Signal       string `json:"signal"` // INT | TERM | none (the run ends by itself)
 	Instances    int    `json:"instances"`
-	Rps          int    `json:"rps"`   // const ops; 0 = `unlimited` schedule
+	Rps          int    `json:"rps"`        // const ops; 0 = `unlimited` schedule
 	Procs        int    `json:"gomaxprocs"` // GOMAXPROCS of the pandora process, 0 = default
 	IDs          bool   `json:"ids"`
 	MinReports   int    `json:"min_completed_reports_before_signal"`
@@ -72,8 +81,22 @@ func tailOf(p string, n int) string {
 
 var sigTagRe = regexp.MustCompile(`^verif_i([0-9]+)(#([0-9]+))?$`)
 
-// errLost marks the shape of the known finding: completed reports missing / last line cut.
-type errLost struct{ msg string }
+// errLost marks the shape of the signal findings: completed reports missing / last line cut.
+// killed = the process did not exit by itself but was terminated by the signal's default action.
+type errLost struct {
+	msg    string
+	killed bool
+}
+
+func killedBySignal(err error) bool {
+	var ee *exec.ExitError
+	if errors.As(err, &ee) {
+		if ws, ok := ee.Sys().(syscall.WaitStatus); ok {
+			return ws.Signaled()
+		}
+	}
+	return false
+}
 
 func (e *errLost) Error() string { return e.msg }
 
@@ -200,7 +223,9 @@ log:
 	}
 	lines, err := parsePhout(data)
 	if err != nil {
-		return &errLost{fmt.Sprintf("after %s (%d reports had completed before it, %d were started in total): %v", how, c0, pre, err)}
+		o.Class("output_malformed")
+		o.ClassIf(killedBySignal(waitErr), "lost/killed_by_default_action")
+		return &errLost{fmt.Sprintf("after %s (%d reports had completed before it, %d were started in total; process: %v): %v", how, c0, pre, waitErr, err), killedBySignal(waitErr)}
 	}
 	o.Note("lines", len(lines))
 	// each instance reports n = 1, 2, 3, … sequentially: its lines must be exactly 1..m
@@ -234,8 +259,14 @@ log:
 		return fmt.Errorf("%d lines in the output but only %d reports were ever started", len(lines), pre)
 	}
 	if int64(len(lines)) < c0 {
+		o.Class("lost_completed_reports")
+		o.ClassIf(c.Rps == 0, "lost/rps_unlimited")
+		o.ClassIf(c.Procs == 1, "lost/gomaxprocs_1")
+		o.ClassIf(c.Instances > 4, "lost/instances_16")
+		o.ClassIf(c.Signal == "INT", "lost/INT")
+		o.ClassIf(killedBySignal(waitErr), "lost/killed_by_default_action")
 		return &errLost{fmt.Sprintf("%d reports had completed before %s was sent, but the output holds only %d lines after the process exited (%v, %d ms later; %d reports started in total)",
-			c0, how, len(lines), waitErr, exitTook.Milliseconds(), pre)}
+			c0, how, len(lines), waitErr, exitTook.Milliseconds(), pre), killedBySignal(waitErr)}
 	}
 	if c.Signal == "none" && (int64(len(lines)) != pre || pre != post) {
 		return fmt.Errorf("run ended by itself: %d reports started, %d completed, %d lines", pre, post, len(lines))
@@ -258,7 +289,7 @@ log:
 // TestSignals runs the trials in parallel (they are wall-clock bound).
 func TestSignals(t *testing.T) {
 	r := vf.Start(t, "C06")
-	known := r.IsKnown(findingSignal)
+	known, knownEarly := r.IsKnown(findingSignal), r.IsKnown(findingEarly)
 	gen := func(rt *rapid.T) SigCase {
 		c := genSigCase(rt)
 		if known && c.Signal != "none" {
@@ -269,33 +300,47 @@ func TestSignals(t *testing.T) {
 		}
 		return c
 	}
-	vf.Batch(r, r.Pick(8, 100), r.Pick(8, 16), gen, checkSignal)
+	vf.Batch(r, r.Pick(8, 100), r.Pick(8, 16), gen, func(c SigCase, o *vf.Obs) error {
+		err := checkSignal(c, o)
+		var lost *errLost
+		if knownEarly && errors.As(err, &lost) && lost.killed {
+			// classifier of the known finding: the process was killed by the signal itself
+			r.KnownHit(findingEarly)
+			return nil
+		}
+		return err
+	})
 }
 
-// TestSignalWitness is the deterministic witness of finding signal-exit-before-flush:
-// SIGTERM a moment after 300 reports completed, well inside phout's first 1 s flush
-// period. While the finding is listed as known it only records that the defect is
-// still there; otherwise it is an ordinary (failing) case.
+func constGen(c SigCase) func(*rapid.T) SigCase {
+	return func(rt *rapid.T) SigCase {
+		_ = rapid.Bool().Draw(rt, "unused") // rapid wants a generator to consume something
+		return c
+	}
+}
+
+// TestSignalWitness is the fixed witness of finding signal-exit-before-flush: SIGTERM a
+// moment after 300 reports completed, inside phout's first 1 s flush period, the pandora
+// process on one CPU. The defect is a race between os.Exit and the aggregator's final
+// flush, so the case is tried up to 6 times. While the finding is listed as known this
+// only records that the defect is still there; otherwise it is an ordinary (failing) case.
 func TestSignalWitness(t *testing.T) {
 	r := vf.Start(t, "C06")
 	known := r.IsKnown(findingSignal)
-	witness := SigCase{Signal: "TERM", Instances: 3, Rps: 5000, IDs: true, MinReports: 300, ExtraDelayMs: 0, DurationMs: 30000}
-	gen := func(rt *rapid.T) SigCase {
-		_ = rapid.Bool().Draw(rt, "unused") // rapid wants a generator to consume something
-		return witness
-	}
-	vf.Batch(r, 1, 1, gen, func(c SigCase, o *vf.Obs) error {
+	witness := SigCase{Signal: "TERM", Instances: 4, Rps: 5000, Procs: 1, IDs: true, MinReports: 300, ExtraDelayMs: 30, DurationMs: 30000}
+	vf.Batch(r, 1, 1, constGen(witness), func(c SigCase, o *vf.Obs) error {
 		var err error
-		for i := 0; i < 3; i++ { // the defect is a race between exit and flush: three attempts
-			err = checkSignal(c, o)
-			if err != nil {
-				break
-			}
+		for i := 0; i < 6 && err == nil; i++ {
+			err = checkSignal(c, &vf.Obs{})
 		}
-		if _, lost := err.(*errLost); lost && known {
-			r.KnownHit(findingSignal)
-			o.Class("known_finding_reproduced")
-			return nil
+		o.Class("witness")
+		var lost *errLost
+		if errors.As(err, &lost) && !lost.killed {
+			o.Class("exit_before_flush_reproduced")
+			if known {
+				r.KnownHit(findingSignal)
+				return nil
+			}
 		}
 		return err
 	})
